@@ -64,6 +64,10 @@ func handle(f []string) string {
 		b, _ := strconv.ParseInt(f[2], 10, 32)
 		ea, eb := convert.Int32ToBytes(int32(a)), convert.Int32ToBytes(int32(b))
 		return fmt.Sprintf("%s %s %s %d", drv.HexRaw(ea), drv.HexRaw(eb), drv.B01(bytes.Compare(ea, eb) < 0), convert.BytesToInt32(ea))
+	case "i16":
+		a, _ := strconv.ParseInt(f[1], 10, 16)
+		ea := convert.Int16ToBytes(int16(a))
+		return fmt.Sprintf("%s %d", drv.HexRaw(ea), convert.BytesToInt16(ea))
 	case "f64":
 		a := math.Float64frombits(binary.BigEndian.Uint64(drv.UnHex(f[1])))
 		b := math.Float64frombits(binary.BigEndian.Uint64(drv.UnHex(f[2])))
